@@ -6,7 +6,8 @@
    the bytes jsoniter writes, [parse_bytes] is an independent JSON reader (RFC 8259 lexer +
    LL(1) parser), [doc_* bs] is the intended document: rows grouped by runs of equal fingerprint. *)
 From Coq Require Import List NArith ZArith Bool Ascii String.
-From Qryn Require Import model.JsonStream proofs.JsonStreamProofs proofs.JsonSpliceProofs.
+From Qryn Require Import model.GoFloat model.JsonStream proofs.JsonStreamProofs proofs.JsonSpliceProofs
+  proofs.GoFloatProofs proofs.JsonNumProofs.
 Import ListNotations.
 Open Scope string_scope.
 Open Scope list_scope.
@@ -232,3 +233,94 @@ Proof.
       * cbn in E. injection E as <- E. destruct b; discriminate E.
       * cbn in E. injection E as <- E. destruct a; discriminate E.
 Qed.
+
+(* ------------------------------------------------------------------------------------------ *)
+(* number texts. model/GoFloat.v computes every number text of a response from the number itself:
+   float64(TimestampNS)/1e9 and float64(T)/1000 with IEEE rounding, fmt %f, strconv.FormatFloat(v,'f',-1,64),
+   jsoniter WriteFloat64, %d / WriteInt64 (tied byte for byte to the Go library functions by the kind numfmt
+   of the correspondence, and to Coq's SpecFloat for the two quotients). *)
+
+(* grammar: every text of the layout  -? digits (. digits)?  that the printers produce is a JSON number
+   (n / 10^k: the integer part is "0" or starts with a non-zero digit, k fraction digits) ... *)
+Theorem number_text_plain_decimal : forall neg n k, (0 <= n)%Z -> num_ok (fixed_text neg n k) = true.
+Proof. exact fixed_text_num_ok. Qed.
+Print Assumptions number_text_plain_decimal.
+
+(* ... and so is the 'e' layout  -? d (. ddd)? e [+-] dd+  WriteFloat64 switches to below 1e-6 / from 1e21 on *)
+Theorem number_text_exponent : forall neg D P, (0 <= D)%Z -> num_ok (exp_text neg D P) = true.
+Proof. exact exp_text_num_ok. Qed.
+Print Assumptions number_text_exponent.
+
+(* %d / WriteInt64 of any integer *)
+Theorem int_text_is_number : forall z, num_ok (int_text z) = true.
+Proof. exact int_text_num_ok. Qed.
+Print Assumptions int_text_is_number.
+
+(* every printer, on every finite float64 (any sign, denormals, the largest and smallest magnitudes): a JSON number.
+   For NaN and the infinities %f and 'f' -1 print NaN, +Inf, -Inf and WriteFloat64 prints nothing: the encoders put
+   such values between quotes only (sample values are strings in the Loki / Prometheus shape) *)
+Theorem float_texts_are_numbers : forall bits, fl_finite (fl_of_bits bits) = true ->
+  num_ok (f6_text (fl_of_bits bits)) = true /\ num_ok (shortest_text (fl_of_bits bits)) = true /\
+  num_ok (wfloat64_text (fl_of_bits bits)) = true.
+Proof.
+  intros bits H. pose proof (fl_of_bits_nonneg bits) as Hn.
+  split; [apply f6_text_num_ok|split; [apply shortest_text_num_ok|apply wfloat64_text_num_ok]]; assumption.
+Qed.
+Print Assumptions float_texts_are_numbers.
+Example float_texts_met :
+  fl_finite (fl_of_bits 1) = true /\ fl_finite (fl_of_bits 9218868437227405311) = true /\
+  wfloat64_text (fl_of_bits 1) = "5e-324" /\ f6_text (fl_of_bits 4575657221408423936) = "0.007812" /\
+  shortest_text (fl_of_bits 4591870180066957722) = "0.1" /\ shortest_text (fl_of_bits 9221120237041090560) = "NaN".
+Proof. repeat split; vm_compute; reflexivity. Qed.
+
+(* the timestamps the writers print in number position, for EVERY integer: %f of float64(ns)/1e9 (matrix),
+   WriteFloat64 and %f of float64(ms)/1000 (Prometheus) *)
+Theorem timestamp_texts_are_numbers : forall t,
+  num_ok (f6_text (ts_seconds t)) = true /\ num_ok (wfloat64_text (ms_seconds t)) = true /\ num_ok (f6_text (ms_seconds t)) = true.
+Proof. intros t. split; [apply ts_text_num_ok|apply ms_text_num_ok]. Qed.
+Print Assumptions timestamp_texts_are_numbers.
+
+(* sample values are rendered without loss: the decimal FormatFloat(v,'f',-1,64) prints lies in the rounding
+   interval of v (between the midpoints to the two neighbouring float64 values, the midpoints included exactly when
+   the mantissa is even), so every correctly rounding reader (strconv.ParseFloat, an IEEE 754 strtod) returns v *)
+Theorem value_text_lossless : forall m e, (0 < m)%Z ->
+  in_interval (interval m e) (fst (shortest m e)) (snd (shortest m e)) = true.
+Proof. exact shortest_in_interval. Qed.
+Print Assumptions value_text_lossless.
+Example value_text_lossless_met :   (* 0.1 = 7205759403792794 * 2^-56: the decimal 1 * 10^-1; MaxFloat64: 17 digits *)
+  shortest 7205759403792794 (-56) = (1, -1)%Z /\ shortest 9007199254740991 971 = (17976931348623157, 292)%Z.
+Proof. split; vm_compute; reflexivity. Qed.
+
+(* the row encoders with the texts computed from the rows: no hypothesis on number texts is left.
+   QueryRange matrix: any batches of rows without a failing entry, any int64 timestamps, any float64 bit patterns *)
+Theorem doc_wellformed_matrix_rows : forall bs, rows_no_fail bs = true ->
+  parse_bytes (render (enc_matrix (rows_with matrix_row bs))) = Some (doc_matrix (rows_with matrix_row bs)).
+Proof. exact matrix_rows_bytes. Qed.
+Print Assumptions doc_wellformed_matrix_rows.
+
+Theorem doc_wellformed_vector_rows : forall order bs, rows_no_fail bs = true ->
+  parse_bytes (render (enc_vector order (rows_with vector_row bs))) = Some (doc_vector order (rows_with vector_row bs)).
+Proof. exact vector_rows_bytes. Qed.
+Print Assumptions doc_wellformed_vector_rows.
+Example rows_guard_met :
+  let r := {| r_fp := 0; r_lbls := [("a", "b")]; r_ts := (-9223372036854775808)%Z; r_msg := ""; r_bits := 9221120237041090560; r_err := ENone |} in
+  rows_no_fail [[r]; []; [r]] = true /\
+  map (map e_tsf) (rows_with matrix_row [[r]]) = [["-9223372036.854776"]] /\ map (map e_val) (rows_with matrix_row [[r]]) = [["NaN"]] /\
+  map (map e_tsf) (rows_with vector_row [[r]]) = [["-9223372036"]].
+Proof. repeat split; vm_compute; reflexivity. Qed.
+
+(* Prometheus writers: any series (label slices, int64 millisecond timestamps, float64 values) *)
+Theorem doc_wellformed_prom_matrix_rows : forall bs ls,
+  parse_bytes (render (enc_prom_matrix (series_of bs ls))) = Some (doc_prom_matrix (series_of bs ls)).
+Proof. exact prom_matrix_rows_bytes. Qed.
+Print Assumptions doc_wellformed_prom_matrix_rows.
+
+Theorem doc_wellformed_prom_vector_rows : forall bs ls,
+  parse_bytes (render (enc_prom_vector (series_of bs ls))) = Some (doc_prom_vector (series_of bs ls)).
+Proof. exact prom_vector_rows_bytes. Qed.
+Print Assumptions doc_wellformed_prom_vector_rows.
+
+Theorem doc_wellformed_prom_scalar_row : forall r,
+  parse_bytes (render (enc_prom_scalar (prom_scalar_of r))) = Some (doc_prom_scalar (prom_scalar_of r)).
+Proof. exact prom_scalar_row_bytes. Qed.
+Print Assumptions doc_wellformed_prom_scalar_row.
